@@ -385,8 +385,13 @@ class NP:
             return z_and(*[cmpop('==', _norm_index(it.at(*V.broadcast_index(it.shape, 1, (kk,))), dims[a]), cell[a])
                            for a, it in enumerate(its)])
         inr = z3.And(k >= 0, k < to_z3(K))
+        from .unit import _pure
+        idx_terms = [to_z3(it.at(*V.broadcast_index(it.shape, 1, (k,)))) for it in its if it.ndim]
+        pats = None
+        if idx_terms and all(z3.is_app(e) and e.decl().kind() == z3.Z3_OP_UNINTERPRETED and _pure(e, k) == (True, True) for e in idx_terms):
+            pats = [z3.MultiPattern(hit(*iv), *idx_terms)]
         ctx.assume(z3.ForAll(iv + [k], z3.Implies(z3.And(inr, to_z3(match(k, iv))),
-                                                   z3.And(hit(*iv), win(*iv) >= k))))
+                                                   z3.And(hit(*iv), win(*iv) >= k)), **({'patterns': pats} if pats else {})))
         ctx.assume(z3.ForAll(iv, z3.Implies(hit(*iv), z3.And(win(*iv) >= 0, win(*iv) < to_z3(K),
                                                              to_z3(match(win(*iv), iv)))),
                              patterns=[hit(*iv)]))
@@ -677,78 +682,96 @@ class NP:
         shape = tuple(pyval(s) for s in shape)
         return self.reshape(interp, t, shape, line)
 
-    def reshape(self, interp, t, shape, line):
-        """C-order reshape through the flat index."""
-        ctx = interp.ctx
-        # total size
-        total = 1
-        for d in t.shape:
-            total = binop('*', total, d)
-        shape = list(shape)
-        if -1 in [s for s in shape if not is_sym(s)]:
-            k = shape.index(-1)
-            known = 1
-            for j, s in enumerate(shape):
-                if j != k:
-                    known = binop('*', known, s)
-            # common exact cases
-            if t.ndim >= 1 and not is_sym(known) and not is_sym(t.shape[-1]) and known == t.shape[-1]:
-                lead = 1
-                for d in t.shape[:-1]:
-                    lead = binop('*', lead, d)
-                shape[k] = lead
-            elif not is_sym(known) and known == 1:
-                shape[k] = total
-            else:
-                raise Unsupported('reshape -1 with symbolic factorisation')
+    def merged(self, ctx, A, B):
+        """Abstract C-order bijection [0,A) x [0,B) <-> [0,AB): (uq, ur, fl, AB); shared per (A,B) so that a merge and a
+        later split use the same bijection.  Only the bijection facts are axiomatised (fl(a,b) = a*B+b is nonlinear and
+        never needed by the obligations); AB is a fresh size with AB >= 0, AB >= A, AB >= B for A,B >= 1."""
+        key = ('merged', z3.simplify(to_z3(A)).sexpr(), z3.simplify(to_z3(B)).sexpr())
+        reg = ctx.ghost.setdefault('merged', {})
+        if key in reg:
+            return reg[key]
+        if not is_sym(A) and not is_sym(B):
+            AB = A * B
         else:
-            new_total = 1
-            for s in shape:
-                new_total = binop('*', new_total, s)
-            if any_sym(total, new_total):
-                eq = z3.simplify(to_z3(total) == to_z3(new_total))
-                if not z3.is_true(eq):
-                    ctx.oblige(f'{interp.cur_func}.reshape@{line}', eq, kind='shape', line=line)
-            elif total != new_total:
-                from .interp import _Raise
-                raise _Raise('ValueError', line=line)
-        src_shape = t.shape
-        tf = t
-        shape = tuple(shape)
+            AB = ctx.fresh_int('flat_len')
+            Az, Bz = to_z3(A), to_z3(B)
+            ctx.assume(z3.And(AB >= 0, z3.Implies(z3.And(Az >= 1, Bz >= 1), z3.And(AB >= Az, AB >= Bz)),
+                              z3.Implies(z3.Or(Az == 0, Bz == 0), AB == 0), z3.Implies(Bz == 1, AB == Az), z3.Implies(Az == 1, AB == Bz)),
+                       tag='reshape: merged leading dimension = product of the two (abstract C-order bijection)')
+        uq = ctx.fresh_fun('unflat_q', z3.IntSort(), z3.IntSort())
+        ur = ctx.fresh_fun('unflat_r', z3.IntSort(), z3.IntSort())
+        fl = ctx.fresh_fun('flat', z3.IntSort(), z3.IntSort(), z3.IntSort())
+        i, a_, b_ = z3.Int(ctx.name('i')), z3.Int(ctx.name('a')), z3.Int(ctx.name('b'))
+        ctx.assume(z3.ForAll([i], z3.Implies(z3.And(i >= 0, i < to_z3(AB)),
+                                             z3.And(uq(i) >= 0, uq(i) < to_z3(A), ur(i) >= 0, ur(i) < to_z3(B), fl(uq(i), ur(i)) == i)),
+                             patterns=[uq(i), ur(i)]))
+        ctx.assume(z3.ForAll([a_, b_], z3.Implies(z3.And(a_ >= 0, a_ < to_z3(A), b_ >= 0, b_ < to_z3(B)),
+                                                  z3.And(fl(a_, b_) >= 0, fl(a_, b_) < to_z3(AB), uq(fl(a_, b_)) == a_, ur(fl(a_, b_)) == b_)),
+                             patterns=[fl(a_, b_)]))
+        reg[key] = (uq, ur, fl, AB)
+        ctx.ghost.setdefault('merged_by_len', {})[z3.simplify(to_z3(AB)).sexpr()] = (A, B, uq, ur, fl)
+        return reg[key]
 
-        def strides(sh):
-            st = []
-            acc = 1
-            for d in reversed(sh):
-                st.append(acc)
-                acc = binop('*', acc, d)
-            return list(reversed(st))
-        # special-case: merge/split of leading dims with identical trailing dims handled by the flat index algebra
-        def fn(*idx):
-            # fast paths avoiding div/mod
-            if len(shape) == len(src_shape) and all(V.dim_eq(a, b) is True for a, b in zip(shape, src_shape)):
-                return tf.fn(*idx)
-            # (A,B,C...) -> (A*B, C...) : need div/mod by B
-            flat = 0
-            for i, s in zip(idx, strides(shape)):
-                flat = binop('+', flat, binop('*', i, s))
-            src = []
-            sst = strides(src_shape)
-            rem = flat
-            for q, (d, s) in enumerate(zip(src_shape, sst)):
-                if q == len(src_shape) - 1:
-                    src.append(rem)
-                else:
-                    src.append(binop('//', rem, s))
-                    rem = binop('%', rem, s)
-            return tf.fn(*src)
-        return STensor(shape, fn, t.dtype, view_of=t)
+    def reshape(self, interp, t, shape, line):
+        """C-order reshape.  Supported exactly: identity; merge of the two leading dims ((A,B,r..) -> (AB,r..) or
+        (-1,r..)); split of a leading dim produced by such a merge back into (A,B); full flatten of rank<=2."""
+        ctx = interp.ctx
+        shape = list(shape)
+        src = t.shape
+        tf = t
+        # identity
+        if len(shape) == len(src) and all((not is_sym(a) and a == -1) or V.dim_eq(a, b) is True for a, b in zip(shape, src)):
+            return STensor(src, lambda *i: tf.fn(*i), t.dtype, view_of=t)
+        # merge the two leading dims
+        if len(src) >= 2 and len(shape) == len(src) - 1 and all(V.dim_eq(a, b) is True for a, b in zip(shape[1:], src[2:])):
+            uq, ur, fl, AB = self.merged(ctx, src[0], src[1])
+            lead = shape[0]
+            if not (not is_sym(lead) and lead == -1) and V.dim_eq(lead, AB) is not True:
+                prod_ok = z3.simplify(to_z3(lead) == to_z3(src[0]) * to_z3(src[1]))
+                if not z3.is_true(prod_ok):
+                    ctx.oblige(f'{interp.cur_func}.reshape@{line}', prod_ok, kind='shape', line=line)
+            if not is_sym(AB):
+                B = src[1]
+                return STensor((AB,) + tuple(src[2:]), lambda i, *r: tf.fn(binop('//', i, B), binop('%', i, B), *r), t.dtype, view_of=t)
+            return STensor((AB,) + tuple(src[2:]), lambda i, *r: tf.fn(uq(to_z3(i)), ur(to_z3(i)), *r), t.dtype, view_of=t)
+        # split a merged leading dim
+        if len(shape) == len(src) + 1 and all(V.dim_eq(a, b) is True for a, b in zip(shape[2:], src[1:])):
+            A, B = shape[0], shape[1]
+            if not is_sym(src[0]) and not is_sym(A) and not is_sym(B):
+                if A * B != src[0]:
+                    from .interp import _Raise
+                    raise _Raise('ValueError', line=line)
+                return STensor(tuple(shape), lambda a, b, *r: tf.fn(binop('+', binop('*', a, B), b), *r), t.dtype, view_of=t)
+            uq, ur, fl, AB = self.merged(ctx, A, B)
+            if V.dim_eq(AB, src[0]) is not True:
+                ctx.oblige(f'{interp.cur_func}.reshape@{line}', to_z3(AB) == to_z3(src[0]), kind='shape', line=line)
+            return STensor(tuple(shape), lambda a, b, *r: tf.fn(fl(to_z3(a), to_z3(b)), *r), t.dtype, view_of=t)
+        # flatten rank 2 / rank 1 -> (n,)
+        if len(shape) == 1 and len(src) == 2:
+            uq, ur, fl, AB = self.merged(ctx, src[0], src[1])
+            if not is_sym(AB):
+                B = src[1]
+                return STensor((AB,), lambda i: tf.fn(binop('//', i, B), binop('%', i, B)), t.dtype, view_of=t)
+            return STensor((AB,), lambda i: tf.fn(uq(to_z3(i)), ur(to_z3(i))), t.dtype, view_of=t)
+        if len(shape) == 1 and len(src) == 1:
+            return STensor(src, lambda i: tf.fn(i), t.dtype, view_of=t)
+        # (n,) -> (1, n) / (n, 1) / (-1, 1) / (1, -1)
+        if len(src) == 1 and len(shape) == 2:
+            if not is_sym(shape[0]) and shape[0] == 1:
+                return STensor((1, src[0]), lambda a, b: tf.fn(b), t.dtype, view_of=t)
+            if not is_sym(shape[1]) and shape[1] == 1:
+                return STensor((src[0], 1), lambda a, b: tf.fn(a), t.dtype, view_of=t)
+        if len(src) >= 1 and len(shape) == len(src) + 1 and not is_sym(shape[1]) and shape[1] == 1 and \
+                all(V.dim_eq(a, b) is True for a, b in zip(shape[2:], src[1:])):
+            return STensor((src[0], 1) + tuple(src[1:]), lambda a, b, *r: tf.fn(a, *r), t.dtype, view_of=t)
+        raise Unsupported(f'reshape {src} -> {tuple(shape)}')
 
     def m_flatten(self, interp, line, t):
-        total = 1
-        for d in t.shape:
-            total = binop('*', total, d)
-        r = self.reshape(interp, t, (total,), line)
+        if t.ndim == 1:
+            return STensor(t.shape, t.fn, t.dtype)
+        if t.ndim != 2:
+            raise Unsupported('flatten of rank > 2')
+        r = self.reshape(interp, t, (-1,), line)
         return STensor(r.shape, r.fn, r.dtype)
 
     def m_copy(self, interp, line, t):
